@@ -43,17 +43,53 @@ def contains(roi, px, py):
         return np.asarray(roi.contains(px, py), dtype=bool)
 
 
-def near_boundary(roi, px, py):
+def band_of(roi, categorical_axis):
+    """width of the boundary band: 1e-6, except for curved regions on a categorical axis, which glue evaluates through their
+    100-vertex polygon (to_polygon): there the band is the polygon's sagitta, radius * (1 - cos(pi / 99)) ~ 5e-4 radius"""
+    if not categorical_axis:
+        return BAND
+    r = max([abs(getattr(roi, a)) for a in ('radius', 'radius_x', 'radius_y', 'outer_radius') if getattr(roi, a, None) is not None] or [0])
+    return max(BAND, 6e-4 * r)
+
+
+def near_boundary(roi, px, py, band=BAND):
+    BAND = band
     base = contains(roi, px, py)
     near = np.zeros(px.shape, bool)
-    for dx, dy in ((BAND, 0), (-BAND, 0), (0, BAND), (0, -BAND), (BAND, BAND), (-BAND, -BAND)):
+    for dx, dy in ((BAND, 0), (-BAND, 0), (0, BAND), (0, -BAND), (BAND, BAND), (-BAND, -BAND), (BAND, -BAND), (-BAND, BAND)):
         near |= contains(roi, px + dx, py + dy) != base
     return near | np.isnan(px) | np.isnan(py)
 
 
-def rois():
+def rois(extra_rng=None, n_extra=0):
     from glue.core import roi as G
     out = []
+    if extra_rng is not None:
+        # thorough tier: random regions (named by their parameters so that replays can rebuild them)
+        r = extra_rng
+        for i in range(n_extra):
+            kind = r.choice(('xrange', 'yrange', 'rect', 'rect-rotated', 'circle', 'ellipse', 'polygon'))
+            a, b = sorted((round(r.uniform(-2, 6), 2), round(r.uniform(-2, 6), 2)))
+            c, e = sorted((round(r.uniform(-2, 6), 2), round(r.uniform(-2, 6), 2)))
+            if kind == 'xrange':
+                out.append(('xrange(%g,%g)' % (a, b), G.XRangeROI(a, b)))
+            elif kind == 'yrange':
+                out.append(('yrange(%g,%g)' % (a, b), G.YRangeROI(a, b)))
+            elif kind == 'rect':
+                out.append(('rect(%g,%g,%g,%g)' % (a, b, c, e), G.RectangularROI(a, b, c, e)))
+            elif kind == 'rect-rotated':
+                th = round(r.uniform(0.1, 3.0), 2)
+                out.append(('rect-rotated(%g,%g,%g,%g,%g)' % (a, b, c, e, th), G.RectangularROI(a, b, c, e, theta=th)))
+            elif kind == 'circle':
+                out.append(('circle(%g,%g,%g)' % (a, c, abs(b - a) / 2 + 0.3), G.CircularROI(a, c, abs(b - a) / 2 + 0.3)))
+            elif kind == 'ellipse':
+                th = round(r.uniform(0, 3.0), 2)
+                out.append(('ellipse(%g,%g,%g,%g,%g)' % (a, c, abs(b - a) / 2 + 0.3, abs(e - c) / 2 + 0.2, th), G.EllipticalROI(a, c, abs(b - a) / 2 + 0.3, abs(e - c) / 2 + 0.2, theta=th)))
+            else:
+                n = r.randrange(3, 7)
+                vx = [round(r.uniform(-1, 5), 2) for _ in range(n)]
+                vy = [round(r.uniform(-1, 5), 2) for _ in range(n)]
+                out.append(('polygon(%r,%r)' % (vx, vy), G.PolygonalROI(vx, vy)))
     for lo, hi in ((-0.5, 1.5), (0.4, 2.6), (-3.0, 0.5), (1.2, 1.8), (-5.0, 10.0), (2.5, 3.5), (0.9, 1.1), (1.5, 0.5)):
         out.append(('xrange(%g,%g)' % (lo, hi), G.XRangeROI(lo, hi)))
         out.append(('yrange(%g,%g)' % (lo, hi), G.YRangeROI(lo, hi)))
@@ -93,7 +129,7 @@ def case(rname, roi, kinds, cats, explicit):
     except Exception as e:
         return ('exception:%s' % type(e).__name__, "%s: %s" % (type(e).__name__, e))
     exp = contains(roi, px, py)
-    skip = near_boundary(roi, px, py)
+    skip = near_boundary(roi, px, py, band_of(roi, 'cat' in kinds))
     bad = np.flatnonzero((got != exp) & ~skip)
     if bad.size:
         i = bad[0]
@@ -109,7 +145,8 @@ def run(tier, seed, R):
               "with rows at every integer and half-integer plotted position (+NaN): mask of roi_to_subset_state(...) vs region.contains(plotted x, plotted y), rows within 1e-6 "
               "of the boundary excluded. non-trivial = distinct case whose expected selection is neither empty nor everything")
     R.exhaustive = True
-    for (rname, roi), kinds, (ci, cats), explicit in itertools.product(rois(), itertools.product(('num', 'cat'), repeat=2), enumerate(CATSETS), (False, True)):
+    all_rois = rois() + (rois(rng, 60)[:60] if tier != 'quick' else [])
+    for (rname, roi), kinds, (ci, cats), explicit in itertools.product(all_rois, itertools.product(('num', 'cat'), repeat=2), enumerate(CATSETS), (False, True)):
         r = case(rname, roi, kinds, cats, explicit)
         R.count((rname, kinds, ci, explicit), 'roi-to-selection')
         if r is not None:
@@ -120,8 +157,12 @@ def run(tier, seed, R):
     R.samples.append({"case": "polygon-open on axes (cat, num) with categories ['c','a','b'] in explicit order vs region.contains(code, value)"})
 
 
-def replay(rname, kinds, ci, explicit):
-    roi = dict(rois())[rname]
+def replay(rname, kinds, ci, explicit, seed=0):
+    allr = dict(rois())
+    if rname not in allr:
+        for k in range(0, 8):
+            allr.update(dict(rois(random.Random(seed + 1000 * k), 60)[:60]))
+    roi = allr[rname]
     r = case(rname, roi, tuple(kinds), CATSETS[ci], explicit)
     print(r)
     return 1 if r else 0
